@@ -9,7 +9,8 @@ import random
 HEX = '0123456789abcdefABCDEF'
 NMSTART_ASCII = 'abcdefghijklmnopqrstuvwxyzABCDEFGHIJKLMNOPQRSTUVWXYZ_'
 NMCHAR_ASCII = NMSTART_ASCII + '0123456789-'
-NONASCII = 'é中\x80\U0001F600'
+# (the last four are white space for Python's \s and str.strip but name characters for CSS)
+NONASCII = 'é中\x80\U0001F600' + '\xa0\u3000\x85\u2003'
 KNOWN_AT = {'@font-face': 'FONT_FACE_SYM', '@import': 'IMPORT_SYM', '@media': 'MEDIA_SYM',
             '@namespace': 'NAMESPACE_SYM', '@page': 'PAGE_SYM', '@variables': 'VARIABLES_SYM'}
 TERMS = [' ', '\t', '\n', '\r', '\f', '\r\n']
